@@ -6,4 +6,5 @@ var Registry = map[string]func(args []string){
 	"serve":    Serve,
 	"stoprace": StopRace,
 	"fidconc":  FidConc,
+	"cfs":      Cfs,
 }
